@@ -471,6 +471,12 @@ func censusLeaf(v ssa.Value) string {
 			return "len(" + types.TypeString(a.Type(), shortQual) + ")"
 		}
 	}
+	// buf.Len() of a Lexer built over a parameter and not yet read from is len(param)
+	if cl, ok := v.(*ssa.Call); ok && cl.Call.StaticCallee() != nil && inUio(cl.Call.StaticCallee()) && cl.Call.StaticCallee().Name() == "Len" && len(cl.Call.Args) == 1 {
+		if p := lexerParamIfUnread(cl); p != nil {
+			return "len(" + shortDesc(p, 5) + ")"
+		}
+	}
 	return shortDesc(v, 5)
 }
 
